@@ -21,9 +21,32 @@ fn round_bound(x: f64, down: bool) -> Value {
         return json!({"inf":-1,"n":0,"d":1});
     }
     let x = x.clamp(-CLAMP, CLAMP);
-    let eps = 1e-6;
-    let n = if down { (x * GRID - eps).floor() } else { (x * GRID + eps).ceil() };
+    let n = if down { (x * GRID).floor() } else { (x * GRID).ceil() };
     json!({"inf":0,"n":n as i64,"d":GRID as i64})
+}
+
+/// A bound moved INWARD onto the 1/1024 grid, exactly (x * 1024 is exact): for a value v on that
+/// grid,  v >= lower  iff  v >= grid_inward(lower, true)  and  v <= upper  iff  v <= grid_inward(upper,
+/// false).  Every sample value is on the grid and at most 32768 in magnitude, so bounds beyond
+/// +-40000 are represented by +-40000 or an infinite side without changing any membership.
+fn grid_inward(x: f64, is_lower: bool) -> Value {
+    const FAR: f64 = 40000.0;
+    if x.is_nan() {
+        return json!({"inf":0,"n":0,"d":1,"nan":true});
+    }
+    if is_lower {
+        if x < -FAR {
+            return json!({"inf":-1,"n":0,"d":1});
+        }
+        let n = if x > FAR { FAR * GRID } else { (x * GRID).ceil() };
+        json!({"inf":0,"n":n as i64,"d":GRID as i64})
+    } else {
+        if x > FAR {
+            return json!({"inf":1,"n":0,"d":1});
+        }
+        let n = if x < -FAR { -FAR * GRID } else { (x * GRID).floor() };
+        json!({"inf":0,"n":n as i64,"d":GRID as i64})
+    }
 }
 
 /// Bound rounded inward: lower bounds up (`up` = true), upper bounds down;
@@ -125,7 +148,7 @@ pub fn bounds_events(case: &Value, out: &mut Vec<Value>) {
                     .variables
                     .iter()
                     .map(|(n, lo, hi)| {
-                        json!({"name":n,"lo":round_bound(*lo,true),"hi":round_bound(*hi,false),
+                        json!({"name":n,"lo":grid_inward(*lo,true),"hi":grid_inward(*hi,false),
                                "ilo":round_inward(*lo,true),"ihi":round_inward(*hi,false)})
                     })
                     .collect();
@@ -134,25 +157,18 @@ pub fn bounds_events(case: &Value, out: &mut Vec<Value>) {
                     sj.push(json!({"e":t,"lo":round_bound(*lo,true),"hi":round_bound(*hi,false),"text":e.to_string()}));
                 }
                 ev["subs"] = json!(sj);
+                // published ranges: exact on the grid (see grid_inward), whatever their digits
                 let mut pubdom = vec![];
-                let mut exact = true;
                 for (n, dv) in rep.domain.iter() {
-                    match vtype_json(n, dv.get_type()) {
-                        Ok(v) => pubdom.push(v),
-                        Err(_) => {
-                            // non-dyadic published bound: outward rounded
-                            exact = false;
-                            let (k, lo, hi) = match dv.get_type() {
-                                rooc::VariableType::Real(a, b) => ("real", *a, *b),
-                                rooc::VariableType::NonNegativeReal(a, b) => ("nnreal", *a, *b),
-                                _ => unreachable!(),
-                            };
-                            pubdom.push(json!({"name":n,"kind":k,"lo":round_bound(lo,true),"hi":round_bound(hi,false)}));
-                        }
-                    }
+                    let (k, lo, hi) = match dv.get_type() {
+                        rooc::VariableType::Boolean => ("bool", 0.0, 1.0),
+                        rooc::VariableType::IntegerRange(a, b) => ("int", *a as f64, *b as f64),
+                        rooc::VariableType::Real(a, b) => ("real", *a, *b),
+                        rooc::VariableType::NonNegativeReal(a, b) => ("nnreal", a.max(0.0), *b),
+                    };
+                    pubdom.push(json!({"name":n,"kind":k,"lo":grid_inward(lo,true),"hi":grid_inward(hi,false)}));
                 }
                 ev["pubdom"] = json!(pubdom);
-                ev["pubdom_exact"] = json!(exact);
             }
         }
         out.push(ev);
